@@ -510,9 +510,12 @@ fn peg_sweep(seed: u64, idx: u64, stats: &mut Counters) -> Option<(PegConfig, u6
 /// 20 x 40 with girth 8.)
 fn mn_sweep(seed: u64, idx: u64, stats: &mut Counters) -> Option<(MnConfig, u64, String)> {
     let mut g = Stream::new(keyed(seed, &[idx]), "c16-mn-sweep");
-    let nrows = 10 + g.below(16) as usize;
-    let ncols = nrows + g.below(nrows as u64 + 1) as usize;
-    let wc = 2 + g.below(2) as usize;
+    // (one in eight: many rows, light columns — selection helpers that switch algorithm above
+    // a size threshold: seeded change C16-r7-1 from 128 rows on)
+    let many_rows = g.chance(1, 8);
+    let nrows = if many_rows { 120 + g.below(90) as usize } else { 10 + g.below(16) as usize };
+    let ncols = if many_rows { nrows / 2 + g.below(nrows as u64) as usize } else { nrows + g.below(nrows as u64 + 1) as usize };
+    let wc = if many_rows { 1 + g.below(2) as usize } else { 2 + g.below(2) as usize };
     let need = (ncols * wc).div_ceil(nrows);
     let conf = MnConfig {
         nrows,
@@ -521,12 +524,12 @@ fn mn_sweep(seed: u64, idx: u64, stats: &mut Counters) -> Option<(MnConfig, u64,
         wc,
         backtrack_cols: *g.pick(&[1usize, 2, 6, 10]),
         backtrack_trials: *g.pick(&[2usize, 5, 20, 50]),
-        min_girth: *g.pick(&[None, Some(6), Some(6), Some(8), Some(8)]),
+        min_girth: if many_rows { None } else { *g.pick(&[None, Some(6), Some(6), Some(8), Some(8)]) },
         girth_trials: *g.pick(&[2usize, 5, 20]),
-        fill_policy: if g.chance(2, 3) { FillPolicy::Random } else { FillPolicy::Uniform },
+        fill_policy: if many_rows || g.chance(1, 3) { FillPolicy::Uniform } else { FillPolicy::Random },
     };
     let s0 = g.below(100_000);
-    for s in s0..s0 + 24 {
+    for s in s0..s0 + if many_rows { 4 } else { 24 } {
         match conf.run(s) {
             Ok(h) => {
                 stats.inc("matrices checked (MacKay-Neal sweep on larger configurations)");
